@@ -270,7 +270,13 @@ func (l *lane) single(c *caseSpec) bool {
 	select {
 	case <-ac.Done:
 	case <-time.After(15 * time.Second):
-		run.Inconclusive("single %d (%s): the server did not close the connection within 15 s after the client was done; cannot judge 'when that connection ends'", c.ID, c.Kind)
+		// the client has left (or was cut off by the proxy's own timers) 15 s ago: the connection has ended for
+		// everybody but the proxy, which never counts it
+		if d := diff(l.gather(w), l.prev); len(d) == 0 {
+			run.Violation("not-counted/server-never-finishes-with-the-connection", w, "%s connection %d: the client was done 15 s ago, the proxy has neither closed the connection nor counted it", c.Kind, c.ID)
+		} else {
+			run.Inconclusive("single %d (%s): the server did not close the connection within 15 s after the client was done; cannot judge 'when that connection ends'", c.ID, c.Kind)
+		}
 		l.resync()
 		return false
 	}
